@@ -982,6 +982,21 @@ class TreeSim(taps.Sim):
             return False
         cname = cs["name"]
         price = self.feed.price(self.model.t, cname)
+        if price != price and self.cfg.get("ill") == "transact_nan" and not self.in_batch:
+            # ill-formed on purpose: a quantity transacted at a missing price must be refused, at the latest by the
+            # update that closes the operation (transact itself has no price guard)
+            self.fire("ill_transact_nan")
+            taps.set_current(None)  # the ledger cannot book a NaN trade; this run ends here
+            try:
+                node.transact(10.0, child=cname)
+                self.root.update(self.root.now)
+                self.c10("ill_not_raised", "a quantity was transacted at a missing price and the update went through (value recorded: %r)" % (self.root._value,), {"ill": "transact_nan"})
+            except Exception as e:  # noqa
+                if "NaN" in str(e) or "nan" in str(e):
+                    self.ill_ok = True
+                else:
+                    self.c10("unexpected_exception", "transact at NaN price: %s" % str(e)[:100], {})
+            raise Stop("ill_transact_nan")
         if not (price == price and price >= 0):
             return False
         mult = cs["mult"]
@@ -1366,6 +1381,17 @@ def gen_ill_plan(rng, kind, tier="quick"):
         plan["ops"].append({"op": "tick"})
         plan["ops"].append({"op": "alloc", "n": 0, "c": 0, "mode": "frac", "frac": 0.2, "direct": False, "upd": True})
         plan["ops"].append({"op": "transact", "n": 0, "c": 0, "qfrac": 0.2, "upd": True, "direct": True, "custom": 1.01})
+    elif kind == "transact_nan":
+        fi = rng.random() < 0.5
+        cls = rng.choice(["CouponPayingSecurity", "FixedIncomeSecurity", "Security"]) if fi else "Security"
+        plan["tree"] = {"k": "S", "name": "root", "cls": "FixedIncomeStrategy" if fi else "StrategyBase", "fi": fi, "how": "list", "children": [{"k": "X", "name": t, "cls": cls if i == 0 else "Security", "mult": 1.0, "decl": "obj"} for i, t in enumerate(tickers)]}
+        cfg["fi"] = fi
+        nd = len(plan["feed"]["dates"])
+        d = rng.randint(0, nd - 1)
+        plan["feed"]["prices"][d][0] = None
+        if cls == "CouponPayingSecurity":
+            plan["feed"]["coupons"] = [[0.0 for _ in tickers] for _ in range(nd)]
+        plan["ops"] = [{"op": "tick"}] * (d + 1) + [{"op": "transact", "n": 0, "c": 0, "qfrac": 0.2, "upd": True, "direct": False, "custom": None}]
     elif kind == "fi_child":
         sub = {"k": "S", "name": "fic", "cls": "FixedIncomeStrategy", "fi": True, "how": "list", "children": [{"k": "X", "name": tickers[0], "cls": "Security", "mult": 1.0, "decl": "obj"}]}
         plan["tree"] = {"k": "S", "name": "root", "cls": rng.choice(["StrategyBase", "Strategy"]), "fi": False, "how": "list", "children": [sub, {"k": "X", "name": tickers[-1], "cls": "Security", "mult": 1.0, "decl": "obj"}]}
